@@ -43,7 +43,7 @@ int main(int argc, char **argv)
     p = list[idx];
     arena_reset(); g_pin = p.be;
     memset(&O, 0, sizeof(O));
-    if (p.prog == P_CTR && !ctr_init(p.c, p.be, &O.co)) return 3;
+    if ((p.prog == P_CTR || p.prog == P_SEEK) && !ctr_init(p.c, p.be, &O.co)) return 3;
     if (p.prog == P_PAR && !par_init(p.c, p.be, &O.po)) return 3;
     base_secret(&base);
     run_marked(&p, &base); run_marked(&p, &base); run_marked(&p, &base);
@@ -66,6 +66,7 @@ int main(int argc, char **argv)
             run_marked(&p, &alt);
         }
     }
+    if (p.prog == P_SEEK) { int k; for (k = 0; ct_related_counter(&p, &base, &alt, k); ++k) run_marked(&p, &alt); }
     {   /* carry chains */
         int k;
         for (k = 0; k <= 16; k += (tier_thorough() ? 1 : 4)) { alt = base; memset(alt.counter, 0, 16); if (k) memset(alt.counter + 16 - k, 0xFF, (size_t)k); run_marked(&p, &alt); }
